@@ -23,10 +23,10 @@ RULES = {
 
 # generator profiles: (weight, kwargs for profile())
 PROFILES = {
-    "C02": [("calm", 5), ("faithful", 5), ("storm", 1), ("errors", 1)],
-    "C03": [("commits", 6), ("calm", 2), ("storm", 2), ("faithful", 1)],
-    "C13": [("storm", 6), ("commits", 3), ("calm", 1), ("errors", 1)],
-    "C14": [("errors", 6), ("faithful", 4), ("calm", 1), ("storm", 1)],
+    "C02": [("calm", 5), ("faithful", 5), ("storm", 1), ("errors", 1), ("lifecycle", 2), ("fair", 3)],
+    "C03": [("commits", 6), ("calm", 2), ("storm", 2), ("faithful", 1), ("lifecycle", 4)],
+    "C13": [("storm", 6), ("commits", 3), ("calm", 1), ("errors", 1), ("lifecycle", 5)],
+    "C14": [("errors", 6), ("faithful", 4), ("calm", 1), ("storm", 1), ("lifecycle", 4), ("fair", 2)],
 }
 
 
@@ -55,9 +55,17 @@ def pick_profile(pid, rng):
 
 def gen_one(pid, rng, thorough):
     profile = pick_profile(pid, rng)
+    if profile == "fair":
+        g = G.FairGen(rng, 400, faithful=True, reentrant=False)
+        sc, impl, run = g.generate()
+        sc["profile"] = profile
+        return sc, impl, run
     steps = rng.choice([8, 15, 30, 50] if not thorough else [10, 25, 50, 90])
-    g = G.Gen(rng, steps, faithful=(profile == "faithful" or rng.random() < 0.15), reentrant=(profile in ("storm", "commits") or rng.random() < 0.3))
-    tune(g, profile, rng)
+    cls = G.MacroGen if (profile == "lifecycle" or rng.random() < 0.12) else G.Gen
+    g = cls(rng, steps, faithful=(profile == "faithful" or rng.random() < 0.15), reentrant=(profile in ("storm", "commits") or rng.random() < 0.3))
+    tune(g, "commits" if profile == "lifecycle" else profile, rng)
+    if profile == "lifecycle" and rng.random() < 0.5:
+        g.script = [dict(e, res=("ok" if e["res"].startswith("err") else e["res"])) for e in g.script]
     sc, impl, run = g.generate()
     sc["profile"] = profile
     return sc, impl, run
@@ -141,27 +149,40 @@ def disagreement(sc):
     return CC.diff(sc, impl, model), impl, model
 
 
+def extra_monitors(sc, names):
+    """Monitors that need the partition log of a faithful scenario."""
+    if sc.get("log") is None or not any(n.startswith("c02-") for n in names):
+        return []
+    ex = [("c02-nogap", "mon-nogap " + sc["log"])]
+    if sc.get("fair") and sc.get("complete_expected"):
+        ex.append(("c02-complete", "mon-complete " + sc["log"]))
+    return ex
+
+
 def monitor_verdicts(scs, names):
     """[(sc, impl)] -> list (per scenario) of failing monitor names."""
     lines, spans = [], []
     for sc, impl in scs:
-        ls = CC.monitor_lines(sc, impl, names)
-        if sc.get("log") is not None and "c02-faithful" in names:
-            ls.append("mon-nogap " + sc["log"])
+        ls = CC.monitor_lines(sc, impl, names) + [l for _, l in extra_monitors(sc, names)]
         spans.append(len(ls))
         lines += ls
     out = core.run_model("consumer", lines) if lines else []
+    for l, a in zip(lines, out):
+        if l.startswith("tr ") and a:
+            raise core.Undecided("the driver could not parse a recorded implementation observation: %r -> %r" % (l, a))
     res, pos = [], 0
     for (sc, impl), n in zip(scs, spans):
-        extra = 1 if (sc.get("log") is not None and "c02-faithful" in names) else 0
-        ans = out[pos + n - len(names) - extra: pos + n]
+        all_names = list(names) + [nm for nm, _ in extra_monitors(sc, names)]
+        for nm, _ in extra_monitors(sc, names):
+            EXTRA_EVALS[nm] = EXTRA_EVALS.get(nm, 0) + 1
+        ans = out[pos + n - len(all_names): pos + n]
         pos += n
-        bad = [nm for nm, a in zip(names + (["c02-nogap"] if extra else []), ans) if a != ["ok"]]
-        res.append(bad)
+        res.append([nm for nm, a in zip(all_names, ans) if a != ["ok"]])
     return res
 
 
 TAGS = {}
+EXTRA_EVALS = {}
 
 
 def failure_tags(name, sc, impl, k):
@@ -200,15 +221,20 @@ def check_batch(pid, scs, res, names, do_count=True):
             res.nontrivial([sc["cfg"], sc.get("script"), sc["events"]])
         res.sample({"cfg": sc["cfg"], "script": sc.get("script", [])[:4], "events": sc["events"][:10], "impl": impl[:10]}, limit=2)
         if d is not None:
-            small = shrink(sc, lambda c: disagreement(c)[0] is not None)
-            dd, impl2, model2 = disagreement(small)
-            i = dd[0] if dd else -1
-            res.disagreements.append({"component": "consumer", "scenario": small, "event": small["events"][i] if dd and i >= 0 else None,
-                                      "impl": dd[1] if dd else None, "model": dd[2] if dd else None})
+            res.count("disagreements_seen")
+            if len(res.disagreements) < 3:  # shrink and report the first few; the rest are only counted
+                small = shrink(sc, lambda c: disagreement(c)[0] is not None)
+                dd, impl2, model2 = disagreement(small)
+                i = dd[0] if dd else -1
+                res.disagreements.append({"component": "consumer", "scenario": small, "event": small["events"][i] if dd and i >= 0 else None,
+                                          "impl": dd[1] if dd else None, "model": dd[2] if dd else None})
     verdicts = monitor_verdicts(scs, names)
     for (sc, impl), bad in zip(scs, verdicts):
         for name in bad:
-            if name == "c02-nogap":
+            res.count("monitor_failures_seen:" + name)
+            if sum(1 for f in res.monitor_failures if f["monitor"] == name) >= 3:
+                continue
+            if name in ("c02-nogap", "c02-complete"):
                 k = None
             else:
                 k = CC.first_failing_prefix(core.run_model, sc, impl, name)
@@ -265,7 +291,7 @@ def run(ctx, res, pid):
     check_batch(pid, scs, res, names)
     res.extra["corpus_scenarios"] = len(corpus)
     # 2. random scenarios
-    n = ctx.scale(12000, 400000)
+    n = ctx.scale({"C02": 7000}.get(pid, 12000), {"C02": 200000}.get(pid, 400000))
     t0 = time.time()
     scs = generate_many(ctx, pid, n, thorough)
     res.extra["generation_s"] = round(time.time() - t0, 1)
@@ -277,6 +303,7 @@ def run(ctx, res, pid):
 
         consumer_enum.run(ctx, res, pid, names)
     res.extra["error_kinds_hit"] = sorted(k for k in res.hist if k.startswith("errkind:"))
+    res.extra["log_monitors_evaluated"] = dict(EXTRA_EVALS)
 
 
 def search(ctx, res, broken, pid):
